@@ -88,7 +88,17 @@ def progbatch(run, extra_args=None):
         run.extra_cov["compile_rejected_detail"] = dict(list(total_rejected.items())[:5])
 
 
+def c08(run):
+    import gen_c08
+    d = gen_c08.make(run.tier)
+    ok, exe, errs, tail = _diag.build(d, PB_TARGET, release=(run.tier == "thorough"), timeout=3000)
+    if not ok:
+        raise Infra("the C08 cell crate does not build against the current tree:\n" + json.dumps(errs)[:2000] + tail[-1500:])
+    run.run_harness(exe, timeout=1800, label="c08cells")
+
+
 PROPS = {
+    "C08": c08,
     "C01": progbatch,
     "C02": progbatch,
     "C06": progbatch,
